@@ -119,7 +119,7 @@ func (this *UTFCodec) Forward(src, dst []byte) (uint, uint, error) {
 		start = 3
 	} else {
 		// First (possibly) invalid symbols (due to block truncation).
-		for (start < 4) && (_UTF_SIZES[src[start]] == 0) {
+		for (start < 3) && (_UTF_SIZES[src[start]] == 0) {
 			start++
 		}
 	}
@@ -148,6 +148,8 @@ func (this *UTFCodec) Forward(src, dst []byte) (uint, uint, error) {
 		s := packUTF(src[i:], &val)
 		res := s != 0
 		// Validation of longer sequences
+		// Second byte in [0x80..0xBF] (only its 6 LSBs are kept)
+		res = res && ((s < 3) || ((src[i+1] & 0xC0) == 0x80))
 		// Third byte in [0x80..0xBF]
 		res = res && ((s != 3) || ((src[i+2] & 0xC0) == 0x80))
 		// Third and fourth bytes in [0x80..0xBF]
